@@ -120,7 +120,12 @@ def gen_case(rng, tier, idx):
         y = Q @ x + (0 if noise_free else rng.normal(0, sigma, size=Q.shape[0]))
         meas.append(dict(Q=Q, kind=kind, y=y, sigma=sigma, proj=t, member=member))
     supplied = None if rng.rand() < 0.75 else gen.pick(rng, [1, 7, 3.5, float(N), 1e6])
-    return dict(attrs=attrs, shape=shape, N=N, noise_free=noise_free, meas=meas, supplied=supplied,
+    prior_call = None
+    if rng.rand() < 0.3:
+        n0 = shape[0]
+        prior_call = dict(meas=[dict(Q=np.eye(n0), kind='identity', y=rng.rand(n0) * 50, sigma=1.0, proj=(attrs[0],))],
+                          total=gen.pick(rng, [None, 5000.0, 3.0]), warm_start=bool(rng.rand() < 0.6))
+    return dict(attrs=attrs, shape=shape, N=N, noise_free=noise_free, meas=meas, supplied=supplied, prior_call=prior_call,
                 spellings=[gen.pick(rng, ['dense', 'dense', 'csr', 'linop']) for _ in meas],
                 targets=[t for t in ['factored', 'local', 'public', 'mixture', 'public_fn'] if rng.rand() < (0.35 if t in ('public', 'local') else 0.9)] or ['factored'],
                 oracle_kind=gen.pick(rng, ['convex', 'approx', 'pairwise']), sub_seed=int(rng.randint(2 ** 31)))
@@ -128,7 +133,7 @@ def gen_case(rng, tier, idx):
 
 def describe(case):
     return dict(attrs=case['attrs'], shape=case['shape'], N=case['N'], noise_free=case['noise_free'], supplied_total=case['supplied'],
-                targets=case['targets'],
+                targets=case['targets'], engine_history=(None if case.get('prior_call') is None else dict(total=case['prior_call']['total'], warm_start=case['prior_call']['warm_start'])),
                 measurements=[dict(proj=list(m['proj']), kind=m['kind'], shape=list(m['Q'].shape), sigma=m['sigma'], spelling=s)
                               for m, s in zip(case['meas'], case['spellings'])])
 
@@ -183,7 +188,14 @@ def run_case(case, ctx):
 
     with quiet(), np.errstate(all='ignore'):
         if 'factored' in case['targets']:
-            eng = m.FactoredInference(dom, iters=1)
+            if case.get('prior_call') is not None:
+                # the engine has a history: an earlier estimate() with another total (supplied or estimated)
+                pc = case['prior_call']
+                eng = m.FactoredInference(dom, iters=1, warm_start=pc['warm_start'])
+                eng.estimate(list(measure.as_tuples(pc['meas'])), total=pc['total'], engine='MD')
+                ctx.tag('engine_reused:warm_start=%s' % pc['warm_start'])
+            else:
+                eng = m.FactoredInference(dom, iters=1)
             model = eng.estimate(list(tuples), total=supplied, engine='MD')
             judge('factored', model.total)
         if 'local' in case['targets']:
